@@ -220,6 +220,29 @@ def run(ctx):
                 if ns_arr(x.t) != sorted(k * 1000 for k in desc["tk"]):
                     ctx.fail("oracle", "stored timestamps are not the sorted 1-ns-rounded seconds (suppress_sorting=%s)" % fb,
                              dict(level="stored", lattice_us=desc), impl=ns_arr(x.t))
+            # ... and for timestamps handed over as (a view of / a selection from / a computation on) another object's index: reversed and strided
+            # slices are READ-ONLY views of the frozen index, fancy selections and arithmetic are fresh arrays - times(units) of the new object are
+            # the sorted stored seconds x factor either way
+            cfg.suppress_time_index_sorting_warnings = False
+            src = nap.Ts(V(desc["tk"], "us"), time_units="us")
+            nsrc = len(src)
+            forms = [("index[::-1]", src.index[::-1]), ("index[::-2]", src.index[::-2]), ("index[n-2:0:-1]", src.index[nsrc - 2:0:-1]),
+                     ("index[[n-1, 0, 1]]", src.index[[nsrc - 1, 0, 1]]), ("index[::-1] + 0.25", src.index[::-1] + 0.25), ("index[1:]", src.index[1:])]
+            for fname, ix in forms:
+                want = sorted(ns_arr(np.asarray(ix)))
+                for cname, mk in (("Ts", lambda: nap.Ts(t=ix)), ("Tsd", lambda: nap.Tsd(t=ix, d=np.arange(len(ix), dtype=float))),
+                                  ("TsdFrame", lambda: nap.TsdFrame(t=ix, d=np.zeros((len(ix), 1))))):
+                    ctx.count("from-index:" + fname)
+                    try:
+                        o = mk()
+                    except Exception as e:
+                        ctx.fail("oracle", "%s(t=%s) raised %r" % (cname, fname, e), dict(level="from-index", lattice_us=desc, form=fname, cls=cname)); continue
+                    for u in ("s", "ms", "us"):
+                        tu = np.asarray(o.times(u))
+                        if list(back(tu, u)) != want or any(tu[i] > tu[i + 1] for i in range(len(tu) - 1)):
+                            ctx.fail("oracle", "%s(t=%s).times(%r) is not the sorted stored time x factor" % (cname, fname, u),
+                                     dict(level="from-index", lattice_us=desc, form=fname, cls=cname, unit=u), impl=[float(v) for v in tu[:6]], expected=want[:6])
+                            break
     finally:
         cfg.suppress_conversion_warnings, cfg.suppress_time_index_sorting_warnings = old
 
